@@ -8,7 +8,9 @@ WIDTHS = (8, 16, 32, 64, 128)
 SCOPE_TXT = {0: '8-bit exhaustive: all 1-digit x 2-digit operand pairs (both orders), all values < 2^16 for unary ops, '
                 'all 1-digit moduli with all operands below them, all odd primes < 2^8 with all residues, alphabet to 4 digits',
              1: 'structural alphabet {0,1,2,MAX/2,MAX/2+1,MAX-1,MAX}, operands of <= 3 digits (343 values), capacities 1..4 digits',
-             2: 'structural alphabet, operands of <= 2 digits (43 values), capacities 1..4 digits'}
+             2: 'structural alphabet, operands of <= 2 digits (43 values), capacities 1..4 digits',
+             3: 'FULL compile-time capacity: BN_BIT_LEN = 2 digits, structural alphabet of <= 2 digits (43 values), capacities 1..2: '
+                'operands and moduli as wide as a bn_t can be, so that every temporary that needs a spare digit or bit has none'}
 
 
 def variants():
@@ -28,6 +30,8 @@ def matrix(tier):
         for w, cc in variants():
             scope = 0 if w == 8 else (1 if (w, cc) in ((16, False), (32, True), (64, True)) else 2)
             m.append((w, cc, 'gcc', '-O2', scope))
+        for w, cc in variants():
+            m.append((w, cc, 'gcc', '-O2', 3))
         # cheap alphabets first, the 8-bit exhaustive scope last: a deadline on an overloaded machine then costs depth, not breadth
         m.sort(key=lambda c: -c[4])
         return m
@@ -40,6 +44,8 @@ def matrix(tier):
             for w, cc in variants():
                 scope = 0 if w == 8 else (1 if opt == '-O2' else 2)
                 blk.append((w, cc, comp, opt, scope))
+                if opt != '-O0' or comp == 'gcc':
+                    blk.append((w, cc, comp, opt, 3))
         blk.sort(key=lambda c: -c[4])   # within a block: alphabets before the 8-bit exhaustive scope
         m += blk
     return m
@@ -48,6 +54,8 @@ def matrix(tier):
 def build(c):
     w, cc, comp, opt, scope = c
     flags = ['-DBN_DIGIT_BIT_CNT=%d' % w, '-DBN_BIT_LEN=%d' % (16 * w), '-DC01_SCOPE=%d' % scope]
+    if scope == 3:
+        flags = ['-DBN_DIGIT_BIT_CNT=%d' % w, '-DBN_BIT_LEN=%d' % (2 * w), '-DMAXCAP=2', '-DC01_SCOPE=2']
     if cc:
         flags.append('-DBN_CC_MULL_DIV')
     return core.compile_c('C01', 'h_' + cfg_name(*c), ['harness/C01/h_c01.c'], flags=flags, cc=comp, opt=opt, san='asan', quiet=True)
@@ -85,7 +93,7 @@ def run(tier):
         'against Python int and (thorough) against native uint64_t on all 2^32 8-bit-digit operand pairs',
         'host is little endian (operands are laid out bytewise)',
         'prime moduli of the wide configurations are a fixed list verified prime while writing the harness',
-        'BN_BIT_LEN = 16 digits so that the library\'s own temporaries (4 + digits, 2*digits + 1) fit',
+        'BN_BIT_LEN = 16 digits so that the library\'s own temporaries (4 + digits, 2*digits + 1) fit; the scope-3 configurations use BN_BIT_LEN = 2 digits instead: there the temporaries do NOT fit and every operation must be exact or fail loudly',
     ]
     mx = matrix(tier)
     only = [x for x in os.environ.get('C01_CONFIGS', '').split(',') if x]   # development/triage aid: substring filter on configuration names
